@@ -39,6 +39,9 @@ def native_confirm(S):
         else:
             r0 = S.driver.call('format', hexs(src), w, 2, 0)
             exp = unhexs(r0[1]) if r0[0] == 'ok' else None
+        if r[0] == 'ok' and exp is not None and exp != src and not hygiene_ok(unhexs(r[1])):
+            return dict(api='format_with_width', source=src, width=w, output=unhexs(r[1]),
+                        what='format_with_width(%s, %d) returns %s: empty, without final line feed, or a line ends in a blank' % (show(src), w, show(unhexs(r[1]))))
         if r[0] != 'ok' or exp is None or unhexs(r[1]) != exp:
             return dict(api='format_with_width', source=src, width=w, what='format_with_width(%s, %d) gives %s, expected %s (the input itself when erroneous, otherwise the text of format_content with Config{max_width, defaults})' % (
                 show(src), w, show(unhexs(r[1])) if r[0] == 'ok' else r[0], show(exp) if exp is not None else 'a result'))
@@ -273,6 +276,8 @@ def run(S, want_witness=True, collect=None):
                 ctx.witness('fallback')
             else:
                 ctx.must_hold(b_not(err), 'formatted only if not erroneous', describe)
+                good = isinstance(res, OStr) and res.term[0] == 'strip' and res.term[1][0] == 'render'
+                ctx.must_hold(good, 'format_with_width: the text returned is not strip(render(..)) (something is done to it after the post-processing)', describe)
                 ctx.witness('formatted')
         ob, ex = S.explore('lib.format_with_width[content of %d code points]' % n, 'format_with_width parses exactly the given text and returns exactly it on refusal, for every text of %d code points' % n,
                            body_width_sym, bounds=dict(code_points=n))
